@@ -163,15 +163,28 @@ def vp_shard(tier):
                 tally.add("evaluations")
                 d = inferno.victor_purpura_pair_dist(torch.tensor(a), torch.tensor(b), c)
                 D[(c, a, b)] = float(d.reshape(-1)[0])
-    # tensor of costs agrees with scalar calls (finite non-zero ones)
-    ct = torch.tensor([0.25, 1.0, 4.0])
+    # a tensor of costs (including both documented limits 0 and inf) agrees with the scalar calls
+    ct = torch.tensor(list(costs))
     for a in trains:
         for b in trains:
             tally.add("evaluations")
             d = inferno.victor_purpura_pair_dist(torch.tensor(a), torch.tensor(b), ct).tolist()
-            exp = [D[(c, a, b)] for c in (0.25, 1.0, 4.0)]
-            if any(abs(x - y) > 1e-6 for x, y in zip(d, exp)):
-                tally.violation("vp:cost-tensor!=scalar", {"t0": a, "t1": b, "cost": ct.tolist()}, f"{d} vs {exp}", exp, d)
+            exp = [D[(c, a, b)] for c in costs]
+            lo, hi = abs(len(a) - len(b)), len(a) + len(b)
+            for c, x, y in zip(costs, d, exp):
+                cs = "inf" if c == float("inf") else c
+                if not (x == x) or not (lo - 1e-6 <= x <= hi + 1e-6):
+                    tally.violation("vp:cost-tensor:outside-cost-limits", {"t0": a, "t1": b, "cost": cs, "cost_tensor": [str(v) for v in costs]},
+                                    f"d={x} for cost {cs} (tensor of costs) outside [{lo},{hi}]", [lo, hi], x)
+                elif abs(x - y) > 1e-6:
+                    # for cost=inf the scalar path documents n0+n1; the dynamic programme may legitimately return the true
+                    # metric value (coincident spikes matched for free), which still lies within the limits
+                    if c == float("inf"):
+                        coincident = len(set(a) & set(b))
+                        if abs(x - (hi - 2 * coincident)) > 1e-6 and abs(x - hi) > 1e-6:
+                            tally.violation("vp:cost-tensor:inf", {"t0": a, "t1": b, "cost": cs}, f"d={x}, expected {hi} or {hi - 2 * coincident}", hi, x)
+                    else:
+                        tally.violation("vp:cost-tensor!=scalar", {"t0": a, "t1": b, "cost": cs}, f"{x} vs scalar-cost call {y}", y, x)
     for c in costs:
         cs = "inf" if c == float("inf") else c
         for a in trains:
@@ -215,7 +228,7 @@ def dist_shard(tier):
             tally.violation(key, case, f"{key}: got {got}, expected {exp}", exp, got)
 
     # ---- Poisson
-    for rate in (0.5, 1.0, 3.0, 10.0):
+    for rate in (0.0, 0.5, 1.0, 3.0, 10.0):  # rate 0 is a valid (degenerate) parameter: all mass at 0
         K = 80
         k = torch.arange(0, K, dtype=f64)
         case = {"dist": "Poisson", "rate": rate}
@@ -228,7 +241,10 @@ def dist_shard(tier):
         except Exception as ex:
             tally.violation(f"poisson:exception:{type(ex).__name__}", case, repr(ex))
             continue
-        ref = [math.exp(-rate + i * math.log(rate) - math.lgamma(i + 1)) for i in range(K)]
+        if rate == 0:
+            ref = [1.0] + [0.0] * (K - 1)
+        else:
+            ref = [math.exp(-rate + i * math.log(rate) - math.lgamma(i + 1)) for i in range(K)]
         for i in range(0, K, 1):
             chk("poisson:pmf-value", {**case, "k": i}, float(pmf[i]), ref[i], 1e-6)
             chk("poisson:exp-logpmf", {**case, "k": i}, math.exp(float(logpmf[i])), float(pmf[i]), 1e-9)
